@@ -33,6 +33,11 @@ ASSUMPTIONS = [
     "object an event happened to carry (this part is checked on the real code only, not proved)",
     "names and aliases are ASCII; IP-literal hosts are outside the property (the gateway never proxies them)",
     "a request is addressed to its Host header; the SNI of the connection it arrives on selects TLS material only",
+    "'at every moment': concurrent requests can observe the manager between two of its mutations; the harness wraps the "
+    "controller's real clusters.Manager and repeats all host probes after every single mutation (mid_update clause, "
+    "C10_retained_names_never_drop over the model's micro-step trace)",
+    "half of the histories deliver events through the real constructor's event handler (queue.ResourceEventHandler) and "
+    "the real worker step (processNextWorkItem) instead of calling syncUpstreamCluster directly",
     "objects that validation refuses (un-creatable endpoint, unknown gate, key/cert mismatch, unparsable CA, insecure+CA) "
     "reach the controller only in the robustness stream (admission bypassed); for them only model/code agreement and "
     "the clauses that hold in every state (same_tenant, no_capture, host_norm) are judged",
